@@ -149,6 +149,12 @@ func (m *C03) OnBlock(e *Env, blk *world.BlockRecord) {
 	sh := getShadow(e)
 	sh.Advance(e, blk)
 	j := sh.J
+	if list, _ := e.Shared["c03.unsignable"].([]string); len(list) > 0 {
+		// a member with its key share and the assigned nonce pair could not build a share with the repository's own signing
+		// routines: the attempt can never gather "all assigned members", so no signature will ever be published for it
+		e.Fail("C03", "assigned_committee_unsignable", "", "%s", list[0])
+		return
+	}
 	ctx := e.Ctx()
 	tk := e.App().TSSKeeper
 	for _, js := range j.SigTx {
